@@ -1,6 +1,7 @@
 (* Props/C06.v - Prepared-statement parameters are bound as data, never as SQL. *)
 From Coq Require Import List NArith ZArith Lia Bool.
 From MM Require Import Lib.Bytes Model.Placeholders Model.Parse Proofs.PlaceholderProofs Proofs.ParseProofs Model.Exec Model.Stmts Proofs.StmtProofs Gen.FactsPackets Gen.FactsConn Gen.FactsCharset Gen.FactsControl.
+From MM Require Import Gen.FactsOutline.
 Import ListNotations.
 Open Scope N_scope.
 
@@ -21,6 +22,12 @@ Theorem c06_source_shape :
   packets_read_cursor_flags_ok = true /\ packets_read_param_type_ok = true /\ packets_parse_com_stmt_send_long_data_ok = true /\
   packets_make_com_stmt_prepare_ok_ok = true.
 Proof. repeat split; reflexivity. Qed.
+
+(* the modules this property rests on define the functions, classes, methods and class-level names they defined when the
+   model was transcribed - nothing added (an override, a new helper in the path), removed or renamed *)
+Theorem c06_module_outlines : translated_outline = true /\ outline_packets_ok = true /\ outline_prepared_ok = true /\ outline_connection_ok = true.
+Proof. repeat split; reflexivity. Qed.
+
 
 (* the one-pass scanner recognises exactly the positions of the placeholder regex:
    a '?' followed by an even number of quote characters *)
